@@ -4,13 +4,12 @@ import (
 	"encoding/json"
 	"fmt"
 	"path/filepath"
-	"regexp"
 	"strings"
 	"sync"
 	"time"
 
 	"verif/internal/core"
-	"verif/internal/proglib"
+	"verif/internal/tabled"
 )
 
 // Run is the C06 check.
@@ -63,36 +62,22 @@ func Run(c *core.Ctx) int {
 	}
 
 	var mu sync.Mutex
-	digests, samples, programs := 0, 0, 0
+	digests, samples, programs, evals := 0, 0, 0, 0
 	distinct := map[string]bool{}
 	c.Parallel(len(jobs), func(i int) {
 		j := jobs[i]
-		j.files["main.go"] = addVerbose(j.files["main.go"])
-		j.files["zz_verbose.go"] = "package main\n\nvar verbose, verboseFn = \"\", \"\"\n"
-		p := &core.Program{Name: "c06/" + j.name, Files: proglib.WithLib(j.files)}
-		res := c.DiffProgram(p, core.DiffOpt{Node: core.NodeOpt{Timeout: 10 * time.Minute}, Quiet: true})
-		if res.Verdict == "violated" {
-			localise(c, p, res)
-		}
+		st := tabled.Run(c, "c06/"+j.name, j.files, 400)
 		mu.Lock()
 		defer mu.Unlock()
-		if res.Verdict == "inconclusive" {
+		if !st.Ok {
 			return
 		}
 		programs++
-		for _, l := range res.Ref.Lines {
-			if strings.HasPrefix(l, "D ") {
-				digests++
-				fs := strings.Fields(l)
-				if len(fs) >= 4 {
-					distinct[fs[1]+" "+fs[2]+" "+fs[3]] = true
-				}
-			} else if strings.HasPrefix(l, "S ") {
-				samples++
-				if samples%400 == 1 {
-					c.Sample(l)
-				}
-			}
+		digests += st.Digests
+		evals += st.Evals
+		samples += st.Samples
+		for k := range st.Distinct {
+			distinct[k] = true
 		}
 	})
 	c.Count("programs", programs)
@@ -123,125 +108,12 @@ func Run(c *core.Ctx) int {
 		}
 	}
 	extra := map[string]any{"prelude_helper_ops": l2.ByOp}
-	return c.Finish("exploration", digests+samples+l2.Tested, len(distinct), 300,
+	c.Count("operations_evaluated_in_programs", evals)
+	return c.Finish("exploration", evals+l2.Tested, len(distinct), 300,
 		"table-driven programs per numeric type: each (type, operator, operand shape) digest over boundary grid², PRNG operands, shift counts 0..255, 8-bit exhaustive, conversions among all numeric types, random expression trees; compared line by line with the reference toolchain. distinct_nontrivial = distinct (type, function, digest) triples observed on the reference side (each digest folds ≥1 evaluated operation); plus direct calls of the prelude's 64-bit helpers compared with BigInt",
 		extra, []string{
 			"reference toolchain go1.23.5 on amd64 computes the values the Go spec defines",
 			"int/uint/uintptr are referenced through type aliases to int32/uint32 on the native side",
 			"out-of-range float→int and overflowing float64→float32 conversions and complex division/multiplication with non-finite operands are excluded (implementation-defined in Go)",
 		})
-}
-
-var sampleCond = regexp.MustCompile(`if n%(\d+) == 0 \{`)
-
-// addVerbose instruments every digest block: when the package variable `verbose` equals the
-// block's D-line prefix, the running digest is printed after every evaluation, so that a
-// digest mismatch can be localised to the first differing evaluation.
-func addVerbose(src string) string {
-	const open = "\t{\n\t\tf := newFnv()"
-	parts := strings.Split(src, open)
-	for i := 1; i < len(parts); i++ {
-		blk := parts[i]
-		k := strings.Index(blk, "println(\"D ")
-		if k < 0 {
-			continue
-		}
-		e := strings.Index(blk[k:], " + f.sum()")
-		if e < 0 {
-			continue
-		}
-		nameExpr := blk[k+len("println(") : k+e]
-		head := blk[:k]
-		head = sampleCond.ReplaceAllString(head, "if n%$1 == 0 || verbose == "+strings.ReplaceAll(nameExpr, "$", "$$")+" {")
-		head = strings.ReplaceAll(head, "n++\n", "n++\nif verbose == "+nameExpr+" { println(\"V \" + itoa(n) + \" \" + f.sum()) }\n")
-		parts[i] = head + blk[k:]
-	}
-	return strings.Join(parts, open)
-}
-
-// localise re-runs a program whose digest differed with the verbose switch set to the
-// differing digest and reports the first differing evaluation as the witness.
-func localise(c *core.Ctx, p *core.Program, res core.DiffResult) {
-	key := p.Name
-	what := p.Name + ": " + res.Diff
-	files := map[string]string{}
-	for k, v := range p.Files {
-		files["src/"+k] = v
-	}
-	// every differing digest line of the program is localised (up to 6), not only the first
-	var dlines []string
-	if len(res.JS) > 0 && len(res.JS[0].Lines) == len(res.Ref.Lines) {
-		for i, l := range res.JS[0].Lines {
-			if l != res.Ref.Lines[i] && strings.HasPrefix(l, "D ") && len(dlines) < 6 {
-				dlines = append(dlines, l)
-			}
-		}
-	}
-	if len(dlines) == 0 {
-		for _, l := range strings.Split(res.Diff, "\n") {
-			l = strings.TrimSpace(l)
-			if i := strings.Index(l, ": D "); i >= 0 {
-				dlines = append(dlines, l[i+2:])
-				break
-			}
-		}
-	}
-	reported := false
-	for _, dline := range dlines {
-		fs := strings.Fields(dline)
-		if len(fs) < 4 {
-			continue
-		}
-		prefix := strings.Join(fs[:len(fs)-2], " ") + " "
-		q := &core.Program{Name: p.Name + "/verbose", Files: map[string]string{}}
-		for k, v := range p.Files {
-			q.Files[k] = v
-		}
-		q.Files["zz_verbose.go"] = fmt.Sprintf("package main\n\nvar verbose, verboseFn = %q, %q\n", prefix, fs[len(fs)-3])
-		r2 := c.DiffProgram(q, core.DiffOpt{Node: core.NodeOpt{Timeout: 10 * time.Minute}, Quiet: true})
-		f2 := map[string]string{}
-		for k, v := range files {
-			f2[k] = v
-		}
-		f2["verbose-diff.txt"] = r2.Diff
-		f2["src/zz_verbose.go"] = q.Files["zz_verbose.go"]
-		wit := ""
-		if len(r2.JS) > 0 {
-			wit = tailAround(r2.JS[0].Lines, r2.Ref.Lines)
-			f2["js.verbose.out"] = wit
-		}
-		f2["diff.txt"] = res.Diff
-		c.Violate(p.Name+" "+strings.TrimSpace(prefix), fmt.Sprintf("%s: digest %q differs from the reference; around the first differing evaluation:\n%s", p.Name, strings.TrimSpace(prefix), wit), f2)
-		reported = true
-	}
-	if reported {
-		return
-	}
-	files["diff.txt"] = res.Diff
-	c.Violate(key, what, files)
-}
-
-func tailAround(js, ref []string) string {
-	n := len(js)
-	if len(ref) < n {
-		n = len(ref)
-	}
-	i := 0
-	for i < n && js[i] == ref[i] {
-		i++
-	}
-	lo := i - 3
-	if lo < 0 {
-		lo = 0
-	}
-	var b strings.Builder
-	for k := lo; k < i+4; k++ {
-		if k < len(js) {
-			b.WriteString("js : " + js[k] + "\n")
-		}
-		if k < len(ref) {
-			b.WriteString("ref: " + ref[k] + "\n")
-		}
-	}
-	return b.String()
 }
